@@ -406,6 +406,33 @@ CHECKS = {
              'latitudes are allowed sets and counted'),
 }
 
+ROUND3 = {
+    'C03': ' Copies and the re-created mailbox are read again through a '
+           'second, still connected session.',
+    'C04': ' Histories contain CHECK; every UID a FETCH lists must have '
+           'been announced to that session (EXISTS/APPENDUID/COPYUID) or '
+           'provisioned.',
+    'C05': ' Slices: another connection deletes/renames the selected '
+           'mailbox before each command; maildir SELECT/EXAMINE/LOGOUT '
+           'while a foreign holder has the uidlist lock.',
+    'C06': ' Slices: 19 commands under a held maildir lock file (virtual '
+           'time runs past the retry window); really nested MIME (depth '
+           '8-1200); mailbox names of 300-1000 levels; the step budget is '
+           'credited per output byte.',
+    'C07': ' Hostile SASL replies are delivered inside the exchange; zone '
+           'spellings strptime takes; header field names by literal.',
+    'C12': ' COPY from the selected read-only mailbox into itself.',
+    'C13': ' In a third of the cases the last 2-5 messages arrive from '
+           'another connection after SELECT.',
+    'C14': ' MOVE into the selected mailbox itself (all backends).',
+    'C15': ' After-execution crash points also for rename/replace/link.',
+    'C16': " The writers' own views are compared with the truth as well.",
+    'C17': ' STATUS (RECENT) pending-count rule around every command.',
+    'C19': ' maildir single-script store through two connections; '
+           'identical re-uploads; a quarter of the programs use one user '
+           'on both connections.',
+}
+
 NOT_YET = 'check not built yet in this round (see DESIGN.md section 4)'
 
 
@@ -427,7 +454,8 @@ def main() -> None:
             'evidence_file': '/verif/evidence/%s.json' % pid,
             'replay_cmd_template': '%s -m vf %s --replay {path}' % (PY, pid),
             'engine': 'vf',
-            'level_claimed': {'category': c['category'], 'text': c['text'],
+            'level_claimed': {'category': c['category'],
+                              'text': c['text'] + ROUND3.get(pid, ''),
                               'design_ref': c['design']},
             'level_note': c['note'],
             'technique': c['technique'],
